@@ -65,7 +65,8 @@ def run(ctx):
                 "auth_strategy=private-key source}: {default, non-default port} x known_hosts {same key, different key same type, only "
                 "other key types, hashed entry, entry under the other port's name, none} x {Reject, AutoAdd, Warning, "
                 "custom accept, custom refuse}; (b2) system store x user store (load_system_host_keys / load_host_keys: none, same key, "
-                "other types, different key of the same type) x policy; (b3) known_hosts text with @revoked / @cert-authority marker "
+                "other types, different key of the same type) x policy; (b4) unknown host x policies raising each exception class (SSHException, OSError family, "
+                "ValueError, KeyError, Exception, a BaseException subclass); (b3) known_hosts text with @revoked / @cert-authority marker "
                 "lines for the host (alone, after another host, wildcard) in either store; Transport.connect(hostkey = same / other of same type / other type / "
                 "None). non-trivial = an auth call was made before the kex completed, the signature was forged, or the "
                 "presented key differs from the expected one")
@@ -214,6 +215,33 @@ def run(ctx):
         if G.PASSWORD.encode() in obs["raw"]:
             ctx.fail("secret-in-plaintext", case, "password in the client's raw output")
 
+    # ---------------- (b4) a policy accepts ONLY by returning normally: every exception class it may raise is a refusal
+    rp = sorted(G.raising_policies())
+    rcases = [(pn, vn, port) for pn in rp for vn in ("none", "other-port-name-only") for port in (22, 2222)]
+    if not ctx.thorough:
+        rcases = [(pn, "none", 22) for pn in rp] + rng.sample([c for c in rcases if not (c[1] == "none" and c[2] == 22)], 6)
+    replies = ctx.driver("C17", ["sconn none %s 0" % key_tok(server_key) for _ in rcases])
+    for i, (pn, vn, port) in enumerate(rcases):
+        name = host if port == 22 else "[%s]:%d" % (host, port)
+        other = "[%s]:%d" % (host, 2222) if port == 22 else host
+        entries = [(other, False, server_key)] if vn == "other-port-name-only" else []
+        ep = rng.choice(entries_points)
+        obs = G.run_ssh_client(host, port, entries + [("decoy.example", False, keys["rsa2"])], pn, server_key, ep)
+        ctx.case(("raising-policy", pn, vn, port, ep), True)
+        ctx.dist("policy:" + pn)
+        case = {"policy": pn, "known_hosts": vn, "port": port, "entry_point": ep}
+        if replies is not None and replies[i] != obs["outcome"]:
+            ctx.disagree("SSHClient.connect decision (raising policy)", case, replies[i], obs["outcome"])
+        if obs["policy_called"] != [name]:
+            ctx.fail("policy-not-consulted-for-unknown-host", case, repr(obs["policy_called"]))
+        if obs["server_saw"] or obs["outcome"] == "authenticate":
+            ctx.fail("credentials-sent-although-policy-raised", case,
+                     "the policy raised %s, connect() outcome %s, server saw %r" % (pn[6:], obs["outcome"], obs["server_saw"]))
+        elif obs["outcome"] != "policy-rejected":
+            ctx.fail("policy-exception-not-propagated", case, "connect() ended with %s" % obs["outcome"])
+        if G.PASSWORD.encode() in obs["raw"]:
+            ctx.fail("secret-in-plaintext", case, "password in the client's raw output")
+
     # ---------------- (b3) marker lines (@revoked / @cert-authority) never make a host "known"
     b64 = server_key.get_base64()
     tname = server_key.get_name()
@@ -287,7 +315,9 @@ META = {
     "note": ("Trusted: Lean kernel + 3 standard axioms; the gated harness. The model abstracts the key exchange to two "
              "events (reply with verified/forged signature, NEWKEYS); re-keying, the known_hosts file format and lookup "
              "(C41), key-type preference reordering and GSS-API key exchange (host key check skipped by design) are not "
-             "modelled. 'Encrypted' means the Packetizer's outbound cipher was set when the message was handed over; the "
+             "modelled. The missing-host-key policy is a Boolean in the model: it accepts only by returning normally; the "
+             "harness drives policies raising SSHException, the OSError family, ValueError, KeyError, Exception and a "
+             "BaseException subclass. 'Encrypted' means the Packetizer's outbound cipher was set when the message was handed over; the "
              "oracle additionally greps the raw socket output for the secrets."),
     "technique": "Lean 4 proof (inductive invariant over all event interleavings; decision procedures) + differential correspondence",
 }
